@@ -137,6 +137,21 @@ fn instant() -> impl Strategy<Value = i64> {
         55 => (0i64..8).prop_map(|k| T0 + k * 1800),
         30 => (0i64..96).prop_map(|k| T0 + 86_400 * 400 + k * 1800 + 17),
         15 => (0i64..200_000_000).prop_map(|s| T0 + s),
+        // far from today: around the epoch, the 31- and 32-bit second counts, placeholder dates
+        6 => proptest::sample::select(vec![
+            0i64,
+            -1,
+            86_399,
+            2_147_483_647,
+            2_147_483_648,
+            4_294_967_295,
+            4_294_967_296,
+            4_294_967_296 + 86_400 * 365,
+            32_503_680_000,      // 3000-01-01
+            253_402_300_799,     // 9999-12-31T23:59:59Z
+            253_402_300_799 - 86_400,
+            -62_135_596_800 + 86_400, // 0001-01-02
+        ]),
     ]
 }
 
